@@ -56,6 +56,8 @@ static int       vn_tx_taken = 0;
 static int       vn_fail_next_send    = 0; /* errno to fail the next asendto with, 0 = none */
 static int       vn_fail_next_connect = 0;
 static long      vn_opened = 0, vn_closed = 0;
+/* optional observer of every transmission, called at the moment of the send */
+static void (*vn_on_tx)(int sock, const unsigned char *data, size_t len) = NULL;
 
 static void vn_reset(void)
 {
@@ -189,6 +191,9 @@ static ares_ssize_t vn_asendto(ares_socket_t s, const void *buf, size_t len, int
     vn_tx[vn_tx_cnt].len  = len;
     memcpy(vn_tx[vn_tx_cnt].data, buf, len);
     vn_tx_cnt++;
+  }
+  if (vn_on_tx != NULL && len <= VN_MAXDGRAM) {
+    vn_on_tx(i, (const unsigned char *)buf, len);
   }
   return (ares_ssize_t)len;
 }
